@@ -172,10 +172,8 @@ func runC12(c *core.Ctx) {
 	atCalls(c, "C12-R2", pbe, ehN+"EventHandler.processEvent", []Req{
 		{"guard-before-events", "lt(math/big.Int.Uint64(*), p1.BlockNumber)", "no event of an old block may be applied"},
 	})
-	// refusal exit: the ErrInferiorBlock return is on the >= edge
-	ensuresIf(c, "C12-R2", pbe, "err=nonnil", "inferior block", "le(p1.BlockNumber, math/big.Int.Uint64(*", []Req{
-		{"nothing-applied", "ok(" + nsN + "GetLastProcessedBlock(*", "refusal happens before any event is applied"},
-	})
+	// (that a block which is not newer is refused before anything is applied follows from
+	// guard-before-events / guard-before-commit: no event and no commit without the strict guard)
 	// error propagation of processEvent: handler errors that are not malformed abort
 	checkProcessEventOutcomes(c)
 
